@@ -18,8 +18,25 @@ import BitstringModel.Gen.Src
 namespace BM.C06.Src
 open BM BM.C06
 
+/-- Shape-agnostic closing tactic for the ties below (the same script must survive harmless rewrites of the Python
+    source — renamed locals, re-associated / commuted sums, conditional expressions ↔ if-statements, `not n` ↔ `n == 0`,
+    `a <= b` ↔ `not a > b`, guards merged with `or` / swapped with the condition negated …): turn the Boolean tests into
+    propositions, split every `if` / `match` on both sides, then close every leaf by linear arithmetic, by
+    simplification with the case hypotheses, or by `grind`. -/
+macro "src_auto" : tactic => `(tactic| (
+  try simp only [Int.min_def, Nat.min_def, Int.max_def, Nat.max_def]
+  try simp only [Int.fmod_eq_emod_of_nonneg, Int.fdiv_eq_ediv_of_nonneg, decide_eq_true_eq, decide_eq_false_iff_not, Bool.not_eq_true', Bool.not_eq_false', Bool.and_eq_true,
+    Bool.or_eq_true, Bool.and_eq_false_imp, Bool.or_eq_false_iff, ne_eq, Decidable.not_not]
+  repeat' split
+  all_goals (first
+    | omega
+    | (simp_all [Except.map, Except.bind] <;> first | omega | grind)
+    | grind [Except.map, Except.bind])))
+
 /-- The final guard of `_validate_slice` (`if not 0 <= start <= end <= len(self): raise ValueError`) for bounds that
-    are already normalised: the translated Boolean test against the model's propositional one. -/
+    are already normalised: the Boolean test in the form the translator emits for the chained comparison against the
+    model's propositional one.  A standalone fact (it mentions no translated function, so it cannot be affected by a
+    rewrite of the source); the tie below no longer goes through it. -/
 theorem validate_core (n s e : Int) :
     (if (!(decide ((0 : Int) ≤ s) && decide (s ≤ e) && decide (e ≤ n))) then (.error .value : Except Err (Int × Int))
       else .ok (s, e)).map (fun p => (p.1.toNat, p.2.toNat))
@@ -38,7 +55,7 @@ theorem validate_core (n s e : Int) :
 theorem validate_slice_eq (n : Nat) (a b : Option Int) :
     (Gen.Src.validate_slice (n : Int) a b).map (fun p => (p.1.toNat, p.2.toNat)) = validateSlice n a b := by
   unfold Gen.Src.validate_slice validateSlice
-  cases a <;> cases b <;> simp only [decide_eq_true_eq] <;> exact validate_core _ _ _
+  cases a <;> cases b <;> src_auto
 
 /-- `ConstBitStream._setbitpos` (bitstream.py) as translated from the source = `C06.setBitPos` (the `pos` /
     `bitpos` setter; `stepCore s (.setPos n)` and `stepCore s (.setBytePos n) = setBitPos s (n * 8)` are this
@@ -48,11 +65,7 @@ theorem setbitpos_eq (s : Stream) (p : Int) :
       | .ok q => ({ s with pos := q }, .unit)
       | .error e => (s, .err e) := by
   unfold setBitPos Gen.Src.setbitpos
-  by_cases h1 : p < 0
-  · simp [h1]
-  by_cases h2 : p > s.len
-  · simp [h1, h2]
-  simp [h1, h2]
+  src_auto
 
 /-- The two seek operations of `stepCore` are `setBitPos` (definitional; restated so that the tie above visibly covers
     them). -/
@@ -67,10 +80,8 @@ theorem getbytepos_eq (s : Stream) :
     stepCore s .getBytePos = match Gen.Src.getbytepos s.len s.pos with
       | .ok v => (s, .val (.int v))
       | .error e => (s, .err e) := by
-  have hm : Int.fmod s.pos 8 = s.pos % 8 := Int.fmod_eq_emod_of_nonneg _ (by decide)
-  have hd : Int.fdiv s.pos 8 = s.pos / 8 := Int.fdiv_eq_ediv_of_nonneg _ (by decide)
-  simp only [stepCore, Gen.Src.getbytepos, hm, hd]
-  by_cases h : s.pos % 8 = 0 <;> simp [h]
+  simp only [stepCore, Gen.Src.getbytepos]
+  src_auto
 
 /-- `ConstBitStream.bytealign` (bitstream.py) as translated from the source = the `.bytealign` branch of
     `C06.stepCore`: `skipped = (8 - pos % 8) % 8`, the new position goes through `_setbitpos` (ValueError when it
@@ -79,15 +90,8 @@ theorem bytealign_eq (s : Stream) :
     stepCore s .bytealign = match Gen.Src.bytealign s.len s.pos with
       | .ok (k, q) => ({ s with pos := q }, .val (.int k))
       | .error e => (s, .err e) := by
-  have hm : Int.fmod s.pos 8 = s.pos % 8 := Int.fmod_eq_emod_of_nonneg _ (by decide)
-  have hm' : Int.fmod (8 - s.pos % 8) 8 = (8 - s.pos % 8) % 8 := Int.fmod_eq_emod_of_nonneg _ (by decide)
-  simp only [stepCore, Gen.Src.bytealign, Gen.Src.setbitpos, hm, hm', Except.bind]
-  generalize (8 - s.pos % 8) % 8 = k
-  by_cases h1 : s.pos + k < 0
-  · simp [h1]
-  by_cases h2 : s.pos + k > s.len
-  · simp [h1, h2]
-  simp [h1, h2]
+  simp only [stepCore, Gen.Src.bytealign, Gen.Src.setbitpos]
+  src_auto
 
 /-- Non-vacuity: 13 bits into a 20-bit stream `bytealign` skips 3 bits and lands on 16; at 16 the byte position is
     2; past the end `_setbitpos` refuses. -/
